@@ -210,8 +210,9 @@ Proof.
     destruct T as (F & <- & <- & <- & <-). cbn [go].
     destruct ds as [|d ds'].
     + apply geq_do_restore; auto.
-    + assert (SV : defer_of (rn g) = defer_of (rn g') /\ ef_defer (rn g) = ef_defer (rn g')) by (crush_g; auto).
-      destruct SV as [<- <-].
+    + assert (SV : defer_of (rn g) = defer_of (rn g') /\ ef_defer (rn g) = ef_defer (rn g') /\
+                   panicv (rn g) = panicv (rn g') /\ panic_fun (rn g) = panic_fun (rn g')) by (crush_g; auto).
+      destruct SV as (<- & <- & <- & <-).
       destruct (geq_rundefer_pre fs fs' pk pk2 gp g g' F H) as [PK G2].
       destruct (rundefer_pre fs pk pk2 gp g) as [pk1 g2], (rundefer_pre fs' pk pk2 gp g') as [pk1' g2']. simpl in PK, G2. subst pk1'.
       assert (FUN : oeq (match d with
@@ -231,8 +232,12 @@ Proof.
       simpl in O3, G3. subst o3'.
       assert (PFE : panic_fun (rn g3) = panic_fun (rn g3') /\ panicv (rn g3) = panicv (rn g3')) by (clear - G3; crush_g; auto).
       destruct PFE as [<- <-].
-      assert (G4 : geq (upd_run (pop_defer (defer_of (rn g)) (ef_defer (rn g))) g3) (upd_run (pop_defer (defer_of (rn g)) (ef_defer (rn g))) g3')).
-      { revert G3. generalize (defer_of (rn g)) (ef_defer (rn g)). clear. intros a b G3. crush_g. reflexivity. }
+      assert (G4 : geq (upd_run (fun r => let r1 := pop_defer (defer_of (rn g)) (ef_defer (rn g)) r in
+                                          if fx then set_panicv (panicv (rn g)) (set_panic_fun (panic_fun (rn g)) r1) else r1) g3)
+                       (upd_run (fun r => let r1 := pop_defer (defer_of (rn g)) (ef_defer (rn g)) r in
+                                          if fx then set_panicv (panicv (rn g)) (set_panic_fun (panic_fun (rn g)) r1) else r1) g3')).
+      { revert G3. generalize (defer_of (rn g)) (ef_defer (rn g)) (panicv (rn g)) (panic_fun (rn g)). clear. intros a b c d G3.
+        destruct fx; crush_g; reflexivity. }
       destruct o3.
       * destruct pk1; [destruct (panic_fun (rn g3))|]; apply IH; simpl; auto.
       * apply IH; simpl; auto.
